@@ -5,7 +5,7 @@ from harness.props import base
 PROP = {
     "id": "C07",
     "quick_n": 400,
-    "thorough_n": 6000,
+    "thorough_n": 4000,
     "rule": "one program = tree spec, two copies a, b filled with different streams (one side often "
             "empty; sparse keys often disjoint), s = a + b, a += b, then further fills of b and of "
             "a; the oracle compares a with s, b with its earlier snapshot, and a again after b "
